@@ -37,6 +37,22 @@ CONFIG = dict(
              'other contents, same pair / reverse pair / same new blob again, one option flipped by re-Configure, Initialize called again). '
              'Every file of every call is judged by the same oracles as a single pair (script validator, line counts, real burndown '
              'consumer per file and on the whole commit, line statistics). '
+             'Round 4 (content of values, entry kinds, pairs of features). Stream c11, kinds content-*: WHOLE files that consist of one or two '
+             'special byte strings (UTF-8 byte order mark, halves of it, two of them, UTF-16 marks, U+FFFD as real content, invalid / overlong / '
+             'surrogate UTF-8, NBSP, U+2028/9, U+3000, NEL, lone CR, CRLF, VT, FF, tab, space, NUL, NFC/NFD) against the empty file, a plain line, '
+             'themselves with something appended / prepended / terminated / doubled, both directions, and every pair of two such strings; lines '
+             'that a normalisation would make equal (invalid bytes vs U+FFFD, with/without BOM, case, kinds of white space, trailing white space '
+             'and CR, NFC vs NFD, blank-looking lines) facing each other in the two versions and next to each other in one; the same lines '
+             'terminated by 11 candidate terminators (LF, CRLF, CR, LF CR, U+2028, U+2029, NEL, VT, FF, RS, CR CR LF) in either version; files of '
+             '9, 10, 11, 99, 100, 101, 999, 1000, 1001 lines growing / shrinking / edited; random concatenations of the special strings; all x cleanup '
+             'x whitespace-ignore. Stream c11multi, kinds multi-modes (every pair of entry modes 100644 / 100755 / 100664 / 120000 symbolic link / '
+             '160000 submodule on the two sides of a modification: re-targeted link, chmod + edit, file <-> link, submodule bump with two hashes and '
+             'empty dummy blobs, file <-> submodule; alone, next to a regular file with the same contents, next to a second entry of the same kind), '
+             'multi-names (two files of one commit whose NAMES differ only in case, white space, BOM, invalid UTF-8 vs U+FFFD, NFC/NFD, doubled '
+             'separators, or are prefixes / suffixes of each other; a rename to the twin name; the twin inserted in the same commit), multi-hashes '
+             '(the colliding shapes with blob hashes that agree in their first / last 1, 2, 4, 8, 16 bytes), multi-twins (files of one commit whose '
+             'CONTENTS are normalisation twins); modes, twin names and hash prefixes are also drawn inside the random shapes and the '
+             'multi-commit sequences (x renames x insertions / deletions x re-Configure x Initialize). '
              'Non-trivial = both blobs non-empty and different (c11multi: a Consume call with at least two such modifications); '
              'distinct = distinct (configuration, old bytes, new bytes).',
         exhaustive_note='quick: all pairs of strings of length <=3 over {a,b,LF,space} and of length <=4 over {a,LF}, x cleanup x whitespace-ignore; '
